@@ -277,6 +277,11 @@ class GeneralizedLinearEstimator(LinearModel):
         else:
             return self._decision_function(X)
 
+    def __sklearn_clone__(self):
+        # ``get_params`` exposes ``penalty__*`` / ``datafit__*`` entries that
+        # ``__init__`` does not accept: build the unfitted copy directly
+        return GeneralizedLinearEstimator(self.datafit, self.penalty, self.solver)
+
     def get_params(self, deep=False):
         """Get parameters of the estimators including the datafit's and penalty's.
 
